@@ -9,6 +9,7 @@ range on input (no wrap-around modelling; narrowing conversions are identity), f
 """
 import itertools
 import math
+import os
 from fractions import Fraction
 
 import numpy as np
@@ -205,6 +206,10 @@ def arith(op, a, b, k):
         if op == "min":
             return y if pos else x
         raise Unsupported("inf arithmetic " + op)
+    if k == "i" and op in ("add", "sub", "mul", "max", "min", "div", "rem"):
+        for x, y, flip in ((a, b, False), (b, a, True)):
+            if "arith" in TREE_OPS and is_c(y) and not is_c(x) and not isinstance(x, Key) and const_tree(x):
+                return tree_map(x, (lambda v: arith(op, y, v, k)) if flip else (lambda v: arith(op, v, y, k)), k)
     if is_c(a) and is_c(b):
         a, b = cv(a), cv(b)
         if op == "add":
@@ -336,9 +341,20 @@ def cmp(op, a, b, k):
         # comparison of If(c, const, const) with a constant folds to c / Not(c) / a constant
         for x, y, flip in ((a, b, False), (b, a, True)):
             if is_c(y) and not is_c(x) and z3.is_app_of(x, z3.Z3_OP_ITE) and _is_num(x.arg(1)) and _is_num(x.arg(2)):
+                # comparison of If(c, const, const) with a constant folds to c / Not(c) / a constant
                 v1, v2 = _num(x.arg(1)), _num(x.arg(2))
                 o = {"lt": "gt", "le": "ge", "gt": "lt", "ge": "le"}.get(op, op) if flip else op
                 return ite(x.arg(0), cmp(o, v1, y, k), cmp(o, v2, y, k), "b")
+            if "cmp" in TREE_OPS and is_c(y) and not is_c(x) and const_tree(x):
+                # deeper decision tree: only when EVERY leaf gives the same answer (e.g. `index < 0` for an index read from a table of
+                # non-negative constants); distributing a comparison whose answer varies turns a small arithmetic atom into a large boolean
+                # structure that slows the solver down (measured on BinPack: 25 s -> more than 900 s)
+                o = {"lt": "gt", "le": "ge", "gt": "lt", "ge": "le"}.get(op, op) if flip else op
+                r = tree_map(x, lambda v: cmp(o, v, y, k), "b")
+                if is_c(r):
+                    if os.environ.get("JXV_DEBUG_TREE"):
+                        print("TREEFOLD", o, y, r, str(x)[:300].replace("\n", " "), flush=True)
+                    return r
     A, B = lift(a, k), lift(b, k)
     if A.eq(B):
         return op in ("le", "ge", "eq")
@@ -353,6 +369,47 @@ def _num(t):
     if z3.is_int_value(t):
         return t.as_long()
     return Fraction(t.numerator_as_long(), t.denominator_as_long())
+
+
+TREE_LIMIT = int(os.environ.get("JXV_TREE_LIMIT", "128"))
+TREE_OPS = os.environ.get("JXV_TREE_OPS", "arith,index").split(",")   # "cmp" (see cmp()) is off: it slows BinPack down by orders of magnitude
+
+
+def const_tree(t):
+    """t is an ITE tree (arbitrary conditions) all of whose leaves are numerals, with at most TREE_LIMIT leaves (counted with multiplicity)"""
+    if is_c(t) or isinstance(t, Key) or not z3.is_app_of(t, z3.Z3_OP_ITE):
+        return False
+    n = 0
+    stack = [t]
+    while stack:
+        x = stack.pop()
+        if _is_num(x):
+            n += 1
+            if n > TREE_LIMIT:
+                return False
+        elif z3.is_app_of(x, z3.Z3_OP_ITE):
+            stack.append(x.arg(1))
+            stack.append(x.arg(2))
+        else:
+            return False
+    return True
+
+
+def tree_map(t, f, k):
+    """rebuild the ITE tree `t` (see const_tree) with f(numeral) at the leaves; `ite` folds equal branches, so the result is often smaller.
+    Distributing an operation with a constant operand (or an array read) over such a tree keeps index computations that come out of constant
+    tables (`table[a]` for a symbolic a) as small decision trees instead of nested ite chains."""
+    memo = {}
+
+    def go(x):
+        if _is_num(x):
+            return f(_num(x))
+        i = x.get_id()
+        if i not in memo:
+            memo[i] = ite(x.arg(0), go(x.arg(1)), go(x.arg(2)), k)
+        return memo[i]
+
+    return go(t)
 
 
 def convert(x, kfrom, kto):
@@ -431,6 +488,39 @@ def as_arr(v):
 def dtype_range(dtype):
     info = np.iinfo(np.dtype(dtype))
     return int(info.min), int(info.max)
+
+
+def wrap_consts(arr, dtype):
+    """two's-complement wrap-around of the CONSTANT elements (and of the numeral leaves of decision trees, see const_tree) of an integer result.
+    Symbolic integer terms stay mathematical integers (stated assumption: inputs are range-constrained, no wrap-around modelling); constants
+    are folded the way the machine does, so that tables of narrow dtypes (int8 index tables that overflow, ...) behave as in JAX."""
+    dt = np.dtype(dtype)
+    if not np.issubdtype(dt, np.integer):
+        return arr
+    lo, hi = dtype_range(dt)
+    span = hi - lo + 1
+
+    def w(v):
+        v = int(v)
+        return v if lo <= v <= hi else (v - lo) % span + lo
+
+    out = arr
+    for idx in np.ndindex(*arr.shape):
+        x = arr[idx]
+        if isinstance(x, (bool, np.bool_)) or isinstance(x, Key):
+            continue
+        if is_c(x):
+            if isinstance(cv(x), int) and not (lo <= cv(x) <= hi):
+                if out is arr:
+                    out = arr.copy()
+                out[idx] = w(cv(x))
+        elif const_tree(x):
+            y = tree_map(x, w, "i")
+            if y is not x:
+                if out is arr:
+                    out = arr.copy()
+                out[idx] = y
+    return out
 
 
 _SORT = {"b": z3.BoolSort, "i": z3.IntSort, "f": z3.RealSort}
@@ -630,7 +720,8 @@ class Sym:
         kf, kt = self.k_in(e), kind(e.params["new_dtype"])
         if kf == "f" and kt == "i":
             self.uses.add("float_as_real")
-        return vmap1(lambda v: convert(v, kf, kt), x)
+        out = vmap1(lambda v: convert(v, kf, kt), x)
+        return wrap_consts(out, e.params["new_dtype"]) if kt == "i" and kf in ("i", "b") else out
 
     def p_pjit(self, e, *xs):
         return self.eval_closed(e.params["jaxpr"], *xs)
@@ -657,7 +748,8 @@ class Sym:
         k = self.k_out(e)
         if k == "f":
             self.uses.add("float_as_real")
-        return vmap2(lambda x, y: arith(op, x, y, k), a, b)
+        out = vmap2(lambda x, y: arith(op, x, y, k), a, b)
+        return wrap_consts(out, e.outvars[0].aval.dtype) if k == "i" and op in ("add", "sub", "mul") else out
 
     def p_add(self, e, a, b):
         return self._bin("add", e, a, b)
@@ -684,7 +776,8 @@ class Sym:
 
     def p_neg(self, e, a):
         k = self.k_out(e)
-        return vmap1(lambda x: arith("sub", 0 if k == "i" else 0.0, x, k) if not is_c(x) else -cv(x), a)
+        out = vmap1(lambda x: arith("sub", 0 if k == "i" else 0.0, x, k) if not is_c(x) else -cv(x), a)
+        return wrap_consts(out, e.outvars[0].aval.dtype) if k == "i" else out
 
     def p_sign(self, e, a):
         k = self.k_out(e)
@@ -1117,6 +1210,8 @@ class Sym:
             s = starts[d]
             if is_c(s):
                 return rec(d + 1, chosen + [min(max(int(cv(s)), 0), maxes[d])])
+            if "index" in TREE_OPS and const_tree(s):  # index read from a constant table: distribute the read over the decision tree
+                return tree_map(s, lambda v: rec(d + 1, chosen + [min(max(int(v), 0), maxes[d])]), k)
             r = rec(d + 1, chosen + [maxes[d]])
             for v in range(maxes[d] - 1, -1, -1):
                 c = cmp("le", s, v, "i") if v == 0 else cmp("eq", s, v, "i")
